@@ -68,6 +68,19 @@ fn class_queries(rng: &mut Rng, u: &Universe) -> Vec<String> {
     if !u.originals.is_empty() {
         v.push(rng.pick(&u.originals).clone());
     }
+    // strings that are *not* class names of the file but are derived from one
+    for c in u.classes.iter().take(3) {
+        v.push(format!("L{};", c));
+        v.push(format!("L{};", c.replace('.', "/")));
+        v.push(c.replace('.', "/"));
+        v.push(format!("[L{};", c));
+        v.push(format!("{}[]", c));
+        v.push(format!(" {}", c));
+        v.push(format!("{} ", c));
+        v.push(format!("{}:", c));
+        v.push(c.to_uppercase());
+        v.push(c.to_lowercase());
+    }
     v.sort();
     v.dedup();
     v
@@ -326,6 +339,17 @@ pub fn threshold_traces() -> Vec<String> {
         v.push(c);
     }
     v.push(format!("a: {}\n    at a.m(F:1)\n", "m".repeat(70000)));
+    for n in [63usize, 64, 65, 130] {
+        let mut t = String::from("big: boom\n");
+        for i in 0..n {
+            t.push_str(&format!("    at big.a({}:3)\n", ["SourceFile", "Worker.java", "Other.java"][i % 3]));
+            if i % 7 == 0 {
+                t.push_str(&format!("    at x.y.Z.run({}:7)\n", ["Z.java", "Other.java"][i % 2]));
+            }
+        }
+        v.push(t);
+    }
+    v.push("big: m\n    at  big.a(F:3)\n    at \tbig.a(F:3)\n    at\u{3000}big.a(F:3)\n    at big.a (F:3)\n    at big .a(F:3)\nCaused by:  small: x\n".to_string());
     v
 }
 
@@ -492,7 +516,7 @@ pub fn threshold_mapping(n: usize) -> Vec<u8> {
 pub const THRESHOLDS: &[usize] = &[127, 128, 129, 130, 255, 256, 257, 300];
 
 fn threshold_cases(out: &mut Out, rng: &mut Rng, th: bool, frl: bool, frp: bool) {
-    let sizes: Vec<usize> = if th { THRESHOLDS.to_vec() } else { vec![rng.pick(&[129usize, 130, 257]), 300] };
+    let sizes: Vec<usize> = if th { let mut v = THRESHOLDS.to_vec(); v.extend([512, 600, 1025, 4097]); v } else { vec![rng.pick(&[129usize, 130, 257]), 300, 600] };
     for n in sizes {
         let text = threshold_mapping(n);
         map_op(out, true, &text);
@@ -703,9 +727,17 @@ pub fn gen_c04(rng: &mut Rng, tier: &str, out: &mut Out) {
         names.push(String::new());
         names.sort();
         names.dedup();
+        if i % 4 == 0 {
+            names.extend(class_queries(rng, &u));
+            names.sort();
+            names.dedup();
+        }
         for c in &names {
             out.d(format!("CLS {}", hxs(c)));
             out.count("q_class");
+            if i % 16 == 0 {
+                out.d(format!("THR {} {}", hxs(c), hxs("msg")));
+            }
         }
         for (c, m) in u.pairs.iter().take(if th { 400 } else { 60 }) {
             out.d(format!("MTH {} {}", hxs(c), hxs(m)));
@@ -717,6 +749,40 @@ pub fn gen_c04(rng: &mut Rng, tier: &str, out: &mut Out) {
         }
         mth_queries(out, true, &u, 30);
     }
+    // long runs of one obfuscated method name: ambiguous only through one odd entry
+    threshold_cases(out, rng, th, true, false);
+    let sizes: Vec<usize> = if th { vec![2, 127, 128, 129, 130, 131, 255, 256, 257, 258, 300, 513, 600, 1025, 4097] } else { vec![129, 130, 131, 257, 600] };
+    for n in sizes {
+        for odd in [Some(0usize), Some(1), Some(n / 2), Some(n - 1), None] {
+            for ranged in [false, true] {
+                let text = ambiguity_mapping(n, odd, ranged);
+                map_op(out, true, &text);
+                out.count("ambiguity_mappings");
+                for m in ["m", "l", "n", "zz"] {
+                    out.d(format!("MTH {} {}", hxs("big"), hxs(m)));
+                }
+                for l in [0usize, 1, 2, n / 2, n - 1, n, n + 1] {
+                    out.d(format!("FRL {} {} {} -", hxs("big"), hxs("m"), l));
+                }
+            }
+        }
+    }
+}
+
+/// `n` entries `-> m` in one class, all with the original name `common` except the one at file
+/// position `odd`; neighbours `l` and `n` before/after in sort order
+pub fn ambiguity_mapping(n: usize, odd: Option<usize>, ranged: bool) -> Vec<u8> {
+    let mut t = String::from("o.Big -> big:\n    void left() -> l\n");
+    for i in 0..n {
+        let name = if odd == Some(i) { "odd" } else { "common" };
+        if ranged {
+            t.push_str(&format!("    {}:{}:void {}(int):{}:{} -> m\n", i + 1, i + 1, name, 10 + i, 10 + i));
+        } else {
+            t.push_str(&format!("    void {}(p{}) -> m\n", name, i));
+        }
+    }
+    t.push_str("    void right() -> n\n");
+    t.into_bytes()
 }
 
 // ---------------------------------------------------------------- C05 record ASTs
@@ -962,7 +1028,7 @@ pub fn gen_c06(rng: &mut Rng, tier: &str, out: &mut Out) {
 
 pub fn gen_c07(rng: &mut Rng, tier: &str, out: &mut Out) {
     let th = thorough(tier);
-    trace_threshold_ops(out, false);
+    trace_threshold_ops(out, false, th);
     let n = if th { 12000 } else { 1000 };
     for i in 0..n {
         let text = if i % 6 == 0 { Vec::new() } else { domain_mapping(rng, &Cfg::domain()) };
@@ -983,7 +1049,18 @@ pub fn gen_c07(rng: &mut Rng, tier: &str, out: &mut Out) {
     }
 }
 
-fn trace_threshold_ops(out: &mut Out, typ: bool) {
+fn trace_threshold_ops(out: &mut Out, typ: bool, th: bool) {
+    // > 256 and > 4096 entries behind one frame line
+    let sizes: Vec<usize> = if th || !typ { vec![300, 4097] } else { vec![300] };
+    for n in sizes {
+        let text = threshold_mapping(n);
+        map_op(out, true, &text);
+        let t = "big: boom\n    at big.b(F.java:7)\n    at big.a(F.java:2)\nCaused by: small: x\n    at big.b(G.java:5)\n";
+        out.d(format!("TXT {}", hxs(t)));
+        if typ {
+            out.d(format!("TYP {}", hxs(t)));
+        }
+    }
     let text = threshold_mapping(130);
     map_op(out, true, &text);
     for t in threshold_traces() {
@@ -1024,7 +1101,7 @@ pub fn gen_c08(rng: &mut Rng, tier: &str, out: &mut Out) {
             out.d(format!("TXT {}", hxs(&t)));
         }
     }
-    trace_threshold_ops(out, true);
+    trace_threshold_ops(out, true, th);
     // F3 anchor
     map_op(out, true, b"o.A -> a:\n");
     out.d(format!("TYPS E {} {}", hxs("java.lang.RuntimeException"), hxs("boom")));
@@ -1138,6 +1215,18 @@ fn buf_queries(out: &mut Out, rng: &mut Rng, dom: bool, u: &Universe, nline: usi
     out.count("buffers_queried");
 }
 
+/// two overloads under one obfuscated name, each numbered from 1 upward (non-monotone line table)
+pub fn nonmonotone_mapping(n: usize) -> Vec<u8> {
+    let mut t = String::from("o.Big -> big:\n");
+    for k in 0..2 {
+        for i in 0..n / 2 {
+            t.push_str(&format!("    {}:{}:void ov{}():{}:{} -> a\n", i + 1, i + 1, k, 1000 * (k + 1) + i, 1000 * (k + 1) + i));
+        }
+    }
+    t.push_str("    void copy(int) -> copy\n    void copyDefault(int) -> copy$default\n    void copy2(int) -> copy$\n");
+    t.into_bytes()
+}
+
 pub fn boundary_mapping() -> Vec<u8> {
     let mut t = String::new();
     for (i, len) in [127usize, 128, 255, 256, 300, 383, 384, 16383, 16384, 16500].iter().enumerate() {
@@ -1151,7 +1240,7 @@ pub fn gen_c10(rng: &mut Rng, tier: &str, out: &mut Out) {
     let th = thorough(tier);
     let n = if th { 10000 } else { 800 };
     for i in 0..n {
-        let text = if i == 1 { threshold_mapping(130) } else if i == 2 { threshold_mapping(300) } else if i == 3 { boundary_mapping() }
+        let text = if i == 1 { threshold_mapping(130) } else if i == 2 { threshold_mapping(300) } else if i == 3 { boundary_mapping() } else if i == 4 { threshold_mapping(600) } else if i == 5 { nonmonotone_mapping(600) }
             else if i % 5 == 4 { gen_mapping(rng, &Cfg::hostile()).text } else { domain_mapping(rng, &Cfg::domain()) };
         let dom = is_representable(&text);
         let u = universe(&text);
